@@ -73,6 +73,9 @@ def scenarios():
         ("get_many", (["b1", "s", "b2"],), {}), ("ret", {"b1": BIG[4095], "s": b"s", "b2": BIG[4097]}))
     add("stats", one, ("stats", (), {}), None)
     add("stats-settings", one, ("stats", ("settings",), {}), None)
+    # values that end like a terminator line (a proxy's role, a health word): the reply ends where END stands alone
+    add("stats-values-like-terminators", one, ("stats", (), {}), None,
+        server_kw={"extra_stats": [b"STAT role BACKEND", b"STAT health OK", b"STAT last_cmd END", b"STAT state STORED", b"STAT note ERROR"]})
     add("stats-cachedump", multi, ("stats", ("cachedump", "1", "10"), {}), None)
     add("stats-items", one, ("stats", ("items",), {}), None)
     add("set-stored", {}, ("set", ("a", b"v"), {}), ("ret", True))
